@@ -25,7 +25,7 @@ theorem C07_roundtrip (h : Hdr) (hw : h.WF) (rest : Bytes)
       enc.length = base h.vMinor + h.extraHeader.length +
         (h.vlrs.map fun v => headerLen false + v.payload.length).sum + h.extraVlr.length ∧
       fileOffset (enc ++ rest) = enc.length ∧
-      decodeHdr (enc ++ rest) = .ok h := by
+      decodeHdr (enc ++ rest) = .ok (canon h) := by
   obtain ⟨vb, hvb, hvl, hdec, henc⟩ := encodeHdr_eq h hw false 0
   rw [← hvl] at hoff ⊢
   simp only [Bool.false_and, Bool.false_eq_true, if_false] at henc
@@ -36,6 +36,16 @@ theorem C07_roundtrip (h : Hdr) (hw : h.WF) (rest : Bytes)
     rw [hpre]
   rw [hd]
   exact parse_encForm h hw vb hdec hhs hoff
+
+/-- in the legal domain of its version (five return counts and no EVLR / waveform fields
+    where the version has none) the header read back *is* the header written -/
+theorem C07_roundtrip_exact (h : Hdr) (hw : h.WF) (hc : canon h = h) (rest : Bytes)
+    (hhs : base h.vMinor + h.extraHeader.length < 2 ^ 16)
+    (hoff : base h.vMinor + h.extraHeader.length +
+      (h.vlrs.map fun v => headerLen false + v.payload.length).sum + h.extraVlr.length < 2 ^ 32) :
+    ∃ enc, encodeHdr h false 0 = .ok enc ∧ decodeHdr (enc ++ rest) = .ok h := by
+  obtain ⟨enc, he, _, _, hd⟩ := C07_roundtrip h hw rest hhs hoff
+  exact ⟨enc, he, by rw [hd, hc]⟩
 
 /-- a statistics-only update of the header -/
 def withStats (h : Hdr) (count : Nat) (byReturn doubles : List Nat) (evlrStart nEvlrs : Nat) : Hdr :=
